@@ -291,7 +291,8 @@ pub fn c05(tier: Tier) -> i32 {
     // part (b): seeks from every reachable state to every record
     let scenarios = scenarios_for(tier, &[Format::Fasta, Format::Fastq], &[PolKind::Std], if tier == Tier::Quick { &[Chunk::All] } else { &[Chunk::All, Chunk::Fixed(1)] }, &|rs, env| {
         let n = rs.recs.len() as u8;
-        let mut alphabet = vec![Op::N, Op::SA, Op::E(2)];
+        // Op::P: set_policy() rebuilds the reader around its state and must carry the position along
+        let mut alphabet = vec![Op::N, Op::SA, Op::E(2), Op::P];
         for i in 0..=n {
             alphabet.push(Op::K(i));
         }
@@ -357,7 +358,7 @@ pub fn c05(tier: Tier) -> i32 {
         prop: "C05",
         tier,
         state_cap: if tier == Tier::Quick { 3000 } else { 60000 },
-        rule: format!("(a) {} ; (b) explicit-state BFS to fixpoint over {{next, read_record_set, read_record_set_exact(2), seek(position of record i) for EVERY record i and for the invalid FASTQ record}} from every reachable reader state (New, Parsing, Incomplete/Positioned with partial search state, Finished after end / after a parse error), {} scenarios (input x capacity x chunking) so that both the in-buffer shortcut and the real source seek are taken (counted in seeks_in_buffer / seeks_through_source); oracle: after seek(i) all reads behave as the reference stream from record i, position() after next() and after set reads = reference coordinates; the same under a never-growing policy at capacities that hold every record (no growth request, no BufferLimit after a seek); (c) {} scenarios with one source failure (read or seek) at every source call index and histories continued past the error: every record returned afterwards is genuine and position() is its true location, and seeks keep landing on the right record", a_rule, n, n_c),
+        rule: format!("(a) {} ; (b) explicit-state BFS to fixpoint over {{next, read_record_set, read_record_set_exact(2), set_policy (reader rebuilt around its state), seek(position of record i) for EVERY record i and for the invalid FASTQ record}} from every reachable reader state (New, Parsing, Incomplete/Positioned with partial search state, Finished after end / after a parse error), {} scenarios (input x capacity x chunking) so that both the in-buffer shortcut and the real source seek are taken (counted in seeks_in_buffer / seeks_through_source); oracle: after seek(i) all reads behave as the reference stream from record i, position() after next() and after set reads = reference coordinates; the same under a never-growing policy at capacities that hold every record (no growth request, no BufferLimit after a seek); (c) {} scenarios with one source failure (read or seek) at every source call index and histories continued past the error: every record returned afterwards is genuine and position() is its true location, and seeks keep landing on the right record", a_rule, n, n_c),
         scenarios,
         plain_depth: if tier == Tier::Quick { 4 } else { 5 },
         plain_every: 40,
@@ -691,7 +692,8 @@ pub fn c14(tier: Tier) -> i32 {
                     });
                     for k in 0..t {
                         // every error kind at every index for the unchunked source, kind Other/TimedOut otherwise
-                        let kinds: &[FaultKind] = if chunk == Chunk::All { &FaultKind::ALL } else { &[FaultKind::TimedOut] };
+                        const ALL_AND_SEEK: [FaultKind; 5] = [FaultKind::Other, FaultKind::TimedOut, FaultKind::UnexpectedEof, FaultKind::InvalidData, FaultKind::SeekInterrupted];
+                        let kinds: &[FaultKind] = if chunk == Chunk::All { &ALL_AND_SEEK } else { &[FaultKind::TimedOut] };
                         for &kind in kinds {
                             let mut env = env0.clone();
                             env.fault = Some(Fault { at: k, kind });
@@ -723,7 +725,7 @@ pub fn c14(tier: Tier) -> i32 {
         prop: "C14",
         tier,
         state_cap: if tier == Tier::Quick { 3000 } else { 60000 },
-        rule: format!("explicit-state BFS over {{next, read_record_set, exact(2), seek(record 0), seek(record 1)}}: {} scenarios = (input, capacity, chunking) x a one-shot failure of the k-th source call for EVERY k up to the number of calls of a full read + 3 (reads and seeks share one index) x error kinds {{Other, TimedOut, UnexpectedEof, InvalidData}}; oracle: the API call during which the source failed returns Err(Io) with exactly that kind (not end of input, not a parse error, not a record), everything before follows the reference stream; {} scenarios with Interrupted before every read / before every subset of <= 2 of the first 6 reads and the strict reference oracle incl. positions (interrupted reads invisible); exploration stops at the failing call (the post-error regime belongs to C06)", n_fault, n_int),
+        rule: format!("explicit-state BFS over {{next, read_record_set, exact(2), seek(record 0), seek(record 1)}}: {} scenarios = (input, capacity, chunking) x a one-shot failure of the k-th source call for EVERY k up to the number of calls of a full read + 3 (reads and seeks share one index) x error kinds {{Other, TimedOut, UnexpectedEof, InvalidData; Interrupted on seeks}}; oracle: the API call during which the source failed returns Err(Io) with exactly that kind (not end of input, not a parse error, not a record), everything before follows the reference stream; {} scenarios with Interrupted before every read / before every subset of <= 2 of the first 6 reads and the strict reference oracle incl. positions (interrupted reads invisible); exploration stops at the failing call (the post-error regime belongs to C06)", n_fault, n_int),
         scenarios,
         plain_depth: 0,
         plain_every: 1,
@@ -988,7 +990,7 @@ pub fn c17(tier: Tier) -> i32 {
         let caps: Vec<usize> = hist_caps(&data, &rs, tier).into_iter().filter(|c| tier == Tier::Thorough || data.len() <= 30 || c % 2 == 1).collect();
         for cap in caps {
             let env = Env { format, cap, chunk: Chunk::All, int: IntPat::None, policy: PolKind::Std, fault: None };
-            let mut alphabet = vec![Op::N, Op::SA];
+            let mut alphabet = vec![Op::N, Op::SA, Op::P];
             if nrec <= 3 {
                 for i in 0..=nrec {
                     alphabet.push(Op::K(i as u8));
@@ -1057,7 +1059,7 @@ pub fn c17(tier: Tier) -> i32 {
             prop: "C17",
             tier,
             state_cap: if tier == Tier::Quick { 12000 } else { 60000 },
-            rule: format!("(a) {} ; (b) explicit-state BFS over {{next, read_record_set, seek(record i) for the first records, the last one and the invalid record}} on {} scenarios = FASTQ inputs with an invalid record (every defect kind; short and 4-10 record files) x capacity: whenever the invalid record's error is returned - after any history of reads and seeks through either seek path - all its fields (line, found byte, lengths, id) and the message must be the reference values ; (c) {} scenarios = inputs with an invalid record (FASTA: non-header first line after 0..9 blank lines LF/CRLF; FASTQ: every defect kind in the first or second record) x capacity 3..8, len+1 x ONE transient source failure at every source call index, histories over {{next, read_record_set, exact(2)}} continued past the failure: a format error returned by a later call still carries the reference fields", a_rule, n, n_c),
+            rule: format!("(a) {} ; (b) explicit-state BFS over {{next, read_record_set, set_policy, seek(record i) for the first records, the last one and the invalid record}} on {} scenarios = FASTQ inputs with an invalid record (every defect kind; short and 4-10 record files) x capacity: whenever the invalid record's error is returned - after any history of reads and seeks through either seek path - all its fields (line, found byte, lengths, id) and the message must be the reference values ; (c) {} scenarios = inputs with an invalid record (FASTA: non-header first line after 0..9 blank lines LF/CRLF; FASTQ: every defect kind in the first or second record) x capacity 3..8, len+1 x ONE transient source failure at every source call index, histories over {{next, read_record_set, exact(2)}} continued past the failure: a format error returned by a later call still carries the reference fields", a_rule, n, n_c),
             scenarios,
             plain_depth: 0,
             plain_every: 1,
